@@ -5,7 +5,7 @@ import itertools
 
 from ..program import AnalysisError, walk_local, dotted
 from ..analysis import Spec, src, class_const, const_value
-from ..rules import (substitute_locals, canon, GWF, EXC, need_func, stores_to, is_const, eval_atom, eval_cond,
+from ..rules import (cond_equiv, cond_branches, substitute_locals, canon, GWF, EXC, need_func, stores_to, is_const, eval_atom, eval_cond,
                      UNKNOWN, parent_map, raise_class)
 from . import common
 from .c07 import _explore
@@ -439,16 +439,32 @@ def state_precedence(prog, an, rep):
 def unwanted_workflows(prog, an, rep):
     R = 'C17.REG.unwanted-workflows'
     f = need_func(an, GH + '.AggregatedWorkflowRuns.remove_unwanted_workflows')
-    lambdas = [x for x in walk_local(f.node, include_root=False)
-               if isinstance(x, ast.Lambda)]
-    ok = any(src(lm.body) == "elem['event'] != 'workflow_dispatch'"
-             for lm in lambdas) and any(
-        isinstance(x, ast.Call) and src(x.func) == 'filter'
-        for x in walk_local(f.node, include_root=False))
+    # filter(lambda r: r['event'] != 'workflow_dispatch', runs) or the
+    # comprehension [r for r in runs if r['event'] != 'workflow_dispatch']
+    shown = []
+    ok = False
+    for x in walk_local(f.node, include_root=False):
+        if isinstance(x, ast.Call) and src(x.func) == 'filter' and \
+                len(x.args) == 2 and isinstance(x.args[0], ast.Lambda) and \
+                len(x.args[0].args.args) == 1:
+            v_ = x.args[0].args.args[0].arg
+            shown.append(src(x.args[0].body))
+            if cond_equiv(None, x.args[0].body,
+                          "%s['event'] != 'workflow_dispatch'" % v_) and \
+                    src(x.args[1]) == 'self._workflow_runs':
+                ok = True
+        if isinstance(x, ast.ListComp) and len(x.generators) == 1 and \
+                len(x.generators[0].ifs) == 1 and \
+                src(x.elt) == src(x.generators[0].target) and \
+                src(x.generators[0].iter) == 'self._workflow_runs':
+            v_ = src(x.generators[0].target)
+            shown.append(src(x.generators[0].ifs[0]))
+            if cond_equiv(None, x.generators[0].ifs[0],
+                          "%s['event'] != 'workflow_dispatch'" % v_):
+                ok = True
     rep.evaluated()
     rep.check(ok, R, f.qname + ': workflow_dispatch runs are filtered out',
-              f.where(), 'the workflow_dispatch filter is %s' %
-              [src(lm.body) for lm in lambdas])
+              f.where(), 'the workflow_dispatch filter is %s' % shown)
     rank = None
     for n in walk_local(f.node, include_root=False):
         if isinstance(n, ast.Assign) and isinstance(n.value, ast.Dict) \
@@ -469,21 +485,38 @@ def unwanted_workflows(prog, an, rep):
     if rank is None:
         return
     c = an.cfg(f)
-    cmp_ = [t for t in an.test_nodes(
-        f, lambda e: isinstance(e, ast.Compare) and rvar in src(e) and
-        isinstance(e.ops[0], (ast.Gt, ast.GtE, ast.Lt, ast.LtE)))]
-    ok = len(cmp_) == 1 and isinstance(cmp_[0].matched.ops[0], ast.Gt) and \
-        src(cmp_[0].matched.left) == "%s[conclusion]" % rvar and \
-        "best_runs[workflow_id]['conclusion']" in \
-        src(cmp_[0].matched.comparators[0])
+    # best[<run>['workflow_id']] = <run>: stored only for a new workflow id
+    # or a strictly better conclusion
+    loops = [n for n in walk_local(f.node, include_root=False)
+             if isinstance(n, ast.For) and isinstance(n.target, ast.Name)
+             and src(n.iter) == 'self._workflow_runs']
+    stores = []
+    for lp in loops:
+        run = lp.target.id
+        for st in walk_local(lp, include_root=False):
+            if isinstance(st, ast.Assign) and len(st.targets) == 1 and \
+                    isinstance(st.targets[0], ast.Subscript) and \
+                    isinstance(st.targets[0].value, ast.Name) and \
+                    src(st.value) == run and \
+                    canon(f, st.targets[0].slice) == \
+                    "%s['workflow_id']" % run:
+                stores.append((st, st.targets[0].value.id, run))
     rep.evaluated()
-    rep.check(ok, R, f.qname + ': a run replaces the kept one only if '
-              'strictly better, per workflow id', f.where(),
-              'replacement test is %s' % [src(t.ast) for t in cmp_])
-    keyv = [v for _, v in stores_to(f, 'workflow_id') if v is not None]
-    rep.check(len(keyv) == 1 and src(keyv[0]) == "run['workflow_id']", R,
-              f.qname + ': best run kept per workflow_id', f.where(),
-              'grouping key is %s' % [src(v) for v in keyv])
+    rep.check(len(stores) == 1, R, f.qname + ': best run kept per '
+              'workflow_id', f.where(), '%d stores best[run["workflow_id"]]'
+              ' = run' % len(stores))
+    for st, best, run in stores:
+        kid = "%s['workflow_id']" % run
+        gates = cond_branches(an, f, '%s in %s' % (kid, best), False) + \
+            cond_branches(
+                an, f, "%s[%s['conclusion']] > %s[%s[%s]['conclusion']]" % (
+                    rvar, run, rvar, best, kid), True)
+        ok, path = c.must_pass(gates, c.stmt_node[id(st)])
+        rep.evaluated()
+        rep.check(ok and len(gates) >= 2, R, f.qname + ': a run replaces '
+                  'the kept one only if strictly better, per workflow id',
+                  f.where(st), 'the kept run can be replaced by one that is '
+                  'not strictly better', path=c.describe_path(path))
 
 
 def lru_rules(prog, an, rep):
